@@ -11,6 +11,9 @@ E1 (bounded exhaustive enumeration against mc/ref_c14.py, which shares no code w
   contain    every pair (w, u) of pin words: pinword_occurrences / pinword_contains (and the _sp
              variants for strict u) against the *geometric* occurrences; every (w, perm):
              perm <= perm(w)  <=>  some pin word of perm is found in w by pinword_contains
+  order      for every w: the whole battery of containment queries on w asked in six orders (multi-
+             factor u before strict u, descending, start indices descending, per-permutation with
+             its pin words sorted / reversed), each from a re-executed library
   interleave two live pinword_occurrences generators advanced alternately
   history    BFS over histories that interleave the direct entry points (pinword_to_perm, quadrant,
              factor_pinword, occurrences/contains, sp_to_m/m_to_sp, pinwords_of_length) with
@@ -579,7 +582,7 @@ class Known:
     def __call__(self, part, sub, sig, case, detail):
         key = (sub, sig)
         self.count[key] = self.count.get(key, 0) + 1
-        size = sum(len(v) for v in case.values())
+        size = sum(len(v) if hasattr(v, "__len__") else 1 for v in case.values())
         if key not in self.first or size < self.first[key][0]:
             self.first[key] = (size, case, detail)
 
@@ -1056,6 +1059,152 @@ def shard_fresh(shard):
 
 
 # --------------------------------------------------------------------------------------------
+# order: the same queries on one word w, asked in several orders, each from a reset library
+# --------------------------------------------------------------------------------------------
+# `contain` asks, for every w, the words u by increasing length and sweeps start indices upwards,
+# in a worker that has answered thousands of other queries before.  Here every (w, order) starts
+# from a re-executed library and the whole battery of queries on that w is asked in one of the
+# orders below; every answer is compared with the same geometric reference.
+#
+#   multi_first_asc    occurrences+contains on every multi-factor u (ascending), then the strict u
+#                      (ascending) with start indices DEscending, then contains_sp
+#   multi_first_desc   contains+occurrences on every multi-factor u (descending length, then lex),
+#                      then the strict u (descending) with start indices ascending
+#   strict_first_desc  strict u first (descending, start indices descending), then multi-factor
+#                      u (descending)
+#   desc_mixed         all u by descending (length, lex); per u: contains, occurrences, and for a
+#                      strict u the _sp variants with start indices descending
+#   reflect_sorted     per permutation (ascending): any(pinword_contains(w, u)) over its pin words
+#                      in sorted order (stops at the first hit, as a caller would)
+#   reflect_reverse    per permutation (descending): the same over its pin words in reverse order
+
+ORDERS = ("multi_first_asc", "multi_first_desc", "strict_first_desc", "desc_mixed",
+          "reflect_sorted", "reflect_reverse")
+
+
+def order_queries(w, order, maxu):
+    U = [u for k in range(0, maxu + 1) for u in WORDS[k]]
+    strict = [u for u in U if len(LENS[u]) == 1]
+    multi = [u for u in U if len(LENS[u]) != 1]
+    n = len(w)
+    desc = lambda us: sorted(us, key=lambda u: (-len(u), [-ord(c) for c in u]))  # noqa: E731
+    out = []
+
+    def sp(u, starts):
+        for s in starts:
+            out.append(("occ_sp", u, s))
+        out.append(("con_sp", u))
+        out.append(("occ_sp", u, None))
+
+    if order == "multi_first_asc":
+        for u in multi:
+            out.append(("occ", u))
+            out.append(("con", u))
+        for u in strict:
+            sp(u, range(n, -1, -1))
+            out.append(("con", u))
+            out.append(("occ", u))
+    elif order == "multi_first_desc":
+        for u in desc(multi):
+            out.append(("con", u))
+            out.append(("occ", u))
+        for u in desc(strict):
+            out.append(("occ", u))
+            sp(u, range(0, n + 1))
+            out.append(("con", u))
+    elif order == "strict_first_desc":
+        for u in desc(strict):
+            sp(u, range(n, -1, -1))
+            out.append(("con", u))
+        for u in desc(multi):
+            out.append(("con", u))
+            out.append(("occ", u))
+        for u in strict:
+            out.append(("occ", u))
+    elif order == "desc_mixed":
+        for u in desc(U):
+            out.append(("con", u))
+            out.append(("occ", u))
+            if len(LENS[u]) == 1:
+                sp(u, range(n, -1, -1))
+    elif order in ("reflect_sorted", "reflect_reverse"):
+        perms = [p for k in range(0, maxu + 1) for p in R.perms(k)]
+        rev = order == "reflect_reverse"
+        for p in (reversed(perms) if rev else perms):
+            us = sorted(WORDS_OF_PERM.get(p, ()), reverse=rev)
+            out.append(("reflect", p, us))
+    else:
+        raise ValueError(order)
+    return out
+
+
+def run_order(part, w, order, maxu, known):
+    """All queries of one order on one word, from a reset library.  Reports the first failing query."""
+    fresh_library()
+    PW = _PW()
+    G, D, _, _ = w_tables(w, maxu)
+    case = {"w": w, "order": order, "maxu": maxu}
+    contained = None
+    nq = 0
+    for k, q in enumerate(order_queries(w, order, maxu)):
+        kind, u = q[0], q[1]
+        nq += 1
+        try:
+            if kind == "occ":
+                got, exp, dev = set(PW.pinword_occurrences(w, u)), set(G.get(u, ())), set(D.get(u, ()))
+                sig = SIG_OCC
+            elif kind == "con":
+                got, exp, dev = PW.pinword_contains(w, u), bool(G.get(u)), bool(D.get(u))
+                sig = SIG_CON
+            elif kind == "occ_sp":
+                start = q[2]
+                e = [st[0] for st in G.get(u, ())]
+                exp = set(s for s in e if start is None or s >= start)
+                got = set(PW.pinword_occurrences_sp(w, u) if start is None
+                          else PW.pinword_occurrences_sp(w, u, start))
+                dev, sig = exp, None
+            elif kind == "con_sp":
+                got, exp = PW.pinword_contains_sp(w, u), bool(G.get(u))
+                dev, sig = exp, None
+            else:   # reflect
+                if contained is None:
+                    contained = F.patterns_of(F.perm_of(w))
+                us = q[2]
+                got = any(PW.pinword_contains(w, x) for x in us)
+                exp = u in contained
+                dev = any(bool(D.get(x)) for x in us)
+                sig = SIG_CON
+        except Exception as exc:  # noqa
+            part.violation("order", case, {"step": k, "query": list(q[:2]) + list(q[2:3] if kind == "occ_sp" else []),
+                                           "exception": repr(exc)})
+            return nq
+        if got != exp:
+            if sig is not None and got == dev:
+                known(part, "order", sig, case, {"step": k, "query": q[:2]})
+                continue
+            part.violation("order", case, {"step": k, "query": list(q[:3]) if kind == "occ_sp" else list(q[:2]),
+                                           "expected": exp, "got": got})
+            return nq
+    return nq
+
+
+def shard_order(shard):
+    n, prefix, maxu = shard
+    part = Partial()
+    known = Known()
+    words = ref_words(n, prefix)
+    nq = 0
+    for w in words:
+        for order in ORDERS:
+            nq += run_order(part, w, order, maxu, known)
+    part.add(len(words) * len(ORDERS), len(words) * len(ORDERS) if n >= 2 else 0)
+    part.bump("order_word_order_runs", len(words) * len(ORDERS))
+    part.bump("order_queries", nq)
+    part.bump("order_known_cases", sum(known.count.values()))
+    return part
+
+
+# --------------------------------------------------------------------------------------------
 # run
 # --------------------------------------------------------------------------------------------
 
@@ -1207,6 +1356,19 @@ def run(ctx, only=None):
                     pairs=ctx.counters.get("contain_word_pairs", 0),
                     word_perm=ctx.counters.get("contain_word_perm_pairs", 0))
 
+    if want("order"):
+        e0 = ctx.evals
+        oplan = [(0, 1), (1, 2), (2, 3), (3, 3), (4, 3)] + ([] if quick else [(4, 4), (5, 3)])
+        shards = []
+        for n, maxu in oplan:
+            for p in prefixes(n, 0 if n <= 2 else 1 if n == 3 else 2 if n == 4 else 3):
+                shards.append((n, p, maxu))
+        ctx.pmap(shard_order, shards)
+        ctx.bounds["order"] = {"orders": list(ORDERS),
+                               "words": [{"w_len": n, "u_len_max": m, "perm_len_max": m} for n, m in oplan],
+                               "reset": "library re-executed before every (w, order)"}
+        ctx.section("order", evaluations=ctx.evals - e0, queries=ctx.counters.get("order_queries", 0))
+
     if want("interleave"):
         e0 = ctx.evals
         shards = [(n, p, 2) for n in range(1, 4) for p in prefixes(n, 1)]
@@ -1296,6 +1458,9 @@ def replay(ctx, rec):
                 ctx.violation("reflect", case, det)
     elif sub == "interleave":
         check_interleave(ctx, PW, case["w"], case["u1"], case["u2"])
+    elif sub == "order":
+        build_globals(max(case["maxu"], 3))
+        run_order(ctx, case["w"], case["order"], case["maxu"], _silent_known)
     elif sub == "history":
         hist = case["history"]
         _, fail = run_history(hist)
